@@ -190,7 +190,30 @@ def build_world(scn: dict, loop: Optional[asyncio.AbstractEventLoop], transport:
         ents[s["sid"]] = {e.eid: e for e in created}
 
     results = []
-    for c in scn.get("conns", []):
+    conn_list = list(scn.get("conns", []))
+    merged_into: Dict[int, int] = {}
+    if cfg.get("merge_connects"):
+        # several attribute pairs of the same entity pair with the same flags go into ONE connect() call
+        groups: Dict[tuple, List[int]] = {}
+        for n, c in enumerate(conn_list):
+            if "sa" not in c:
+                continue
+            key = (c["src"], c["se"], c["dst"], c["de"], c.get("shift"), bool(c.get("shift_int")), bool(c.get("weak")),
+                   bool(c.get("async")))
+            groups.setdefault(key, []).append(n)
+        for key, idxs in groups.items():
+            # initial data is keyed by source attribute: only merge if that stays unambiguous
+            sas = [conn_list[n]["sa"] for n in idxs]
+            if len(idxs) > 1 and len(set(sas)) == len(sas):
+                for n in idxs[1:]:
+                    merged_into[n] = idxs[0]
+    extra_pairs: Dict[int, List[dict]] = {}
+    for n, first in merged_into.items():
+        extra_pairs.setdefault(first, []).append(conn_list[n])
+    for n, c in enumerate(conn_list):
+        if n in merged_into:
+            results.append(("merged", None))
+            continue
         kwargs: Dict[str, Any] = {}
         if c.get("shift"):
             kwargs["time_shifted"] = c["shift"] if c["shift"] != 1 or c.get("shift_int") else True
@@ -201,11 +224,16 @@ def build_world(scn: dict, loop: Optional[asyncio.AbstractEventLoop], transport:
         if c.get("async"):
             kwargs["async_requests"] = True
         pair = (c["sa"], c["da"]) if "sa" in c else None
+        more = []
+        for c2 in extra_pairs.get(n, []):
+            more.append((c2["sa"], c2["da"]))
+            if "init" in c2:
+                kwargs.setdefault("initial_data", {})[c2["sa"]] = c2["init"]
         try:
             with warnings.catch_warnings():
                 warnings.simplefilter("ignore")
                 if pair:
-                    world.connect(ents[c["src"]][c["se"]], ents[c["dst"]][c["de"]], pair, **kwargs)
+                    world.connect(ents[c["src"]][c["se"]], ents[c["dst"]][c["de"]], pair, *more, **kwargs)
                 else:
                     world.connect(ents[c["src"]][c["se"]], ents[c["dst"]][c["de"]], **kwargs)
             results.append(("ok", None))
@@ -269,7 +297,7 @@ def run_case(scn: dict, sched: Optional[dict] = None, want_world: bool = False) 
                 trace["connect"] = conn_results
                 rec.world = world
                 trace["n_setup"] = len(rec.events)
-                bad = [r for r in conn_results if r[0] != "ok"]
+                bad = [r for r in conn_results if r[0] not in ("ok", "merged")]
                 if bad and not scn.get("allow_connect_errors"):
                     trace["outcome"] = {"kind": "connect_error", "detail": bad[:3]}
                 else:
